@@ -4,7 +4,7 @@
 
   The invariant used for the induction is `SInv m F` (`Proofs/MapSInv.lean`):
 
-      SInv m F  ↔  Inv m F  ∧  RootFlags m F  ∧  Hyg F  ∧  m.full = false        (under `CR`)
+      SInv m F  ↔  Inv m F  ∧  RootFlags m F  ∧  Hyg F  ∧  m.full = false        (under `NZ`)
 
   i.e. the storage invariant `Inv` of `Props/C09.lean` strengthened by
     * `RootFlags`: a stored NON-EMPTY ROOT carries the remember flag iff it is a cached leaf
@@ -47,13 +47,13 @@ variable {H : Type} [DecidableEq H] [Hasher H]
 `NumLeaves++`): even or odd leaf count, non-empty and empty roots on the way up, with or without
 re-allocation.  The leaf is appended to the specification forest; it joins the cache iff its
 `Remember` flag is set; nothing else changes in the cache. -/
-theorem inv_addSingle (cr : CR H) {m : MapPollard H} {F : Forest H} (s : SInv m F) (a : Leaf H)
+theorem inv_addSingle (nz : NZ H) {m : MapPollard H} {F : Forest H} (s : SInv m F) (a : Leaf H)
     (hn : F.numLeaves + 1 < 2 ^ 63) (hfresh : a.hash ∉ F.liveLeaves) (hx0 : a.hash ≠ zero)
     (hxph : ∀ u v : H, a.hash ≠ ph u v) :
     ∃ m', MapPollard.add [a] m = (m', .ok ()) ∧ SInv m' (F.add a.hash) ∧ Inv m' (F.add a.hash) ∧
       (∀ y, m'.hasCached y = true ↔ (m.hasCached y = true ∨ (a.remember = true ∧ y = a.hash))) := by
-  obtain ⟨m', h1, h2, h3⟩ := MapAddMerge.sinv_addSingle cr s a hn hfresh hx0 hxph
-  refine ⟨{ m' with numLeaves := m'.numLeaves + 1 }, ?_, h2, h2.inv cr, h3⟩
+  obtain ⟨m', h1, h2, h3⟩ := MapAddMerge.sinv_addSingle nz s a hn hfresh hx0 hxph
+  refine ⟨{ m' with numLeaves := m'.numLeaves + 1 }, ?_, h2, h2.inv nz, h3⟩
   unfold MapPollard.add
   rw [h1]
   rfl
@@ -61,23 +61,23 @@ theorem inv_addSingle (cr : CR H) {m : MapPollard H} {F : Forest H} (s : SInv m 
 /-- **`add` of any list of fresh, distinct, non-zero leaves that are not parent hashes preserves
 the invariant**: `m'` tracks `F.addMany adds` and the cache grows by exactly the remembered
 leaves (`K' = K ∪ remembered adds`). -/
-theorem inv_add (cr : CR H) {m : MapPollard H} {F : Forest H} (s : SInv m F) (adds : List (Leaf H))
+theorem inv_add (nz : NZ H) {m : MapPollard H} {F : Forest H} (s : SInv m F) (adds : List (Leaf H))
     (hn : F.numLeaves + adds.length < 2 ^ 63)
     (hfr : ∀ a ∈ adds, a.hash ∉ F.liveLeaves ∧ a.hash ≠ zero ∧ ∀ u v : H, a.hash ≠ ph u v)
     (hnd : (adds.map (·.hash)).Nodup) :
     ∃ m', MapPollard.add adds m = (m', .ok ()) ∧ SInv m' (F.addMany (adds.map (·.hash))) ∧
       Inv m' (F.addMany (adds.map (·.hash))) ∧
       (∀ y, m'.hasCached y = true ↔ (m.hasCached y = true ∨ ∃ a ∈ adds, a.remember = true ∧ a.hash = y)) := by
-  obtain ⟨m', h1, h2, h3⟩ := MapAddMerge.sinv_add cr adds s hn hfr hnd
-  exact ⟨m', h1, h2, h2.inv cr, h3⟩
+  obtain ⟨m', h1, h2, h3⟩ := MapAddMerge.sinv_add nz adds s hn hfr hnd
+  exact ⟨m', h1, h2, h2.inv nz, h3⟩
 
 /-- C01 for `add` on the map forest: the roots after the additions are the specification's -/
-theorem roots_add (cr : CR H) {m : MapPollard H} {F : Forest H} (s : SInv m F) (adds : List (Leaf H))
+theorem roots_add (nz : NZ H) {m : MapPollard H} {F : Forest H} (s : SInv m F) (adds : List (Leaf H))
     (hn : F.numLeaves + adds.length < 2 ^ 63)
     (hfr : ∀ a ∈ adds, a.hash ∉ F.liveLeaves ∧ a.hash ≠ zero ∧ ∀ u v : H, a.hash ≠ ph u v)
     (hnd : (adds.map (·.hash)).Nodup) :
     ∃ m', MapPollard.add adds m = (m', .ok ()) ∧ m'.roots = (F.addMany (adds.map (·.hash))).roots := by
-  obtain ⟨m', h1, _, h3, _⟩ := inv_add cr s adds hn hfr hnd
+  obtain ⟨m', h1, _, h3, _⟩ := inv_add nz s adds hn hfr hnd
   exact ⟨m', h1, Props.C09.roots_eq h3⟩
 
 /-! ### non-vacuity -/
@@ -95,14 +95,14 @@ theorem leafT_nph (k : Nat) : ∀ u v : T, T.leaf k ≠ Hasher.ph u v := by
 leaf is hashed with the root on row 0 -/
 example : ∃ m', MapPollard.add [⟨T.leaf 5, true⟩] m5 = (m', .ok ()) ∧ Inv m' (F5.add (.leaf 5)) ∧
     m'.hasCached (.leaf 5) = true := by
-  obtain ⟨m', h1, _, h3, h4⟩ := inv_addSingle crT m5_sinv ⟨T.leaf 5, true⟩ (by decide) (by decide)
+  obtain ⟨m', h1, _, h3, h4⟩ := inv_addSingle crT.toNZ m5_sinv ⟨T.leaf 5, true⟩ (by decide) (by decide)
     (leafT_nz _) (leafT_nph _)
   exact ⟨m', h1, h3, (h4 _).2 (Or.inr ⟨rfl, rfl⟩)⟩
 
 /-- … three leaves at once: the eighth leaf merges all the way up to row 3 -/
 example : ∃ m', MapPollard.add [⟨T.leaf 5, true⟩, ⟨T.leaf 6, false⟩, ⟨T.leaf 7, true⟩] m5 = (m', .ok ()) ∧
     Inv m' (F5.addMany [.leaf 5, .leaf 6, .leaf 7]) := by
-  obtain ⟨m', h1, _, h3, _⟩ := inv_add crT m5_sinv [⟨T.leaf 5, true⟩, ⟨T.leaf 6, false⟩, ⟨T.leaf 7, true⟩]
+  obtain ⟨m', h1, _, h3, _⟩ := inv_add crT.toNZ m5_sinv [⟨T.leaf 5, true⟩, ⟨T.leaf 6, false⟩, ⟨T.leaf 7, true⟩]
     (by decide)
     (by
       intro a ha
@@ -118,7 +118,7 @@ def m5d : MapPollard T := (MapPollard.modify [] [T.leaf 4] [4#64] m5).1
 def F5d : Forest T := F5.delLeaves [.leaf 4]
 
 theorem m5d_sinv : SInv m5d F5d :=
-  SInv.of_inv crT (Props.C09.invCheck_sound (by decide +kernel)) (by decide +kernel)
+  SInv.of_inv crT.toNZ (Props.C09.invCheck_sound (by decide +kernel)) (by decide +kernel)
     { nodup := by decide
       nz := by
         intro x hx
@@ -135,18 +135,18 @@ theorem m5d_sinv : SInv m5d F5d :=
 example : (m5d.getNodeD (encP 63 (0, 4))).hash = Hasher.zero ∧
     ∃ m', MapPollard.add [⟨T.leaf 5, true⟩] m5d = (m', .ok ()) ∧ Inv m' (F5d.add (.leaf 5)) := by
   refine ⟨by decide +kernel, ?_⟩
-  obtain ⟨m', h1, _, h3, _⟩ := inv_addSingle crT m5d_sinv ⟨T.leaf 5, true⟩ (by decide) (by decide)
+  obtain ⟨m', h1, _, h3, _⟩ := inv_addSingle crT.toNZ m5d_sinv ⟨T.leaf 5, true⟩ (by decide) (by decide)
     (leafT_nz _) (leafT_nph _)
   exact ⟨m', h1, h3⟩
 
 /-- the GROWING case: `m5g` was allocated on demand (`TotalRows = 3 = TreeRows 5`); three more
 leaves fill the 8 slots and the ninth forces `remap` to 4 rows -/
 theorem m5g_sinv : SInv m5g F5 :=
-  SInv.of_inv crT m5g_inv (by decide +kernel) F5_hyg (rootFlagsCheck_sound (by decide +kernel) (by decide +kernel))
+  SInv.of_inv crT.toNZ m5g_inv (by decide +kernel) F5_hyg (rootFlagsCheck_sound (by decide +kernel) (by decide +kernel))
 
 example : ∃ m', MapPollard.add [⟨T.leaf 5, true⟩, ⟨T.leaf 6, false⟩, ⟨T.leaf 7, true⟩, ⟨T.leaf 8, true⟩] m5g
       = (m', .ok ()) ∧ Inv m' (F5.addMany [.leaf 5, .leaf 6, .leaf 7, .leaf 8]) ∧ m'.totalRows = 4#8 := by
-  obtain ⟨m', h1, _, h3, _⟩ := inv_add crT m5g_sinv
+  obtain ⟨m', h1, _, h3, _⟩ := inv_add crT.toNZ m5g_sinv
     [⟨T.leaf 5, true⟩, ⟨T.leaf 6, false⟩, ⟨T.leaf 7, true⟩, ⟨T.leaf 8, true⟩] (by decide)
     (by
       intro a ha
@@ -165,45 +165,45 @@ end Example
 
 /-- **`Ingest` of the canonical proof of live leaves `L` (possibly with surplus hashes appended)
 preserves the invariant**: every stored hash stays true, `K' = K ∪ L` -/
-theorem inv_ingest (cr : CR H) {m : MapPollard H} {F : Forest H} (s : SInv m F) (L : List H) (ts : List Pos)
+theorem inv_ingest (nz : NZ H) {m : MapPollard H} {F : Forest H} (s : SInv m F) (L : List H) (ts : List Pos)
     (ps junk : List H) (hnd : L.Nodup) (hc : F.canon L = some (ts, ps)) :
     ∃ m', MapPollard.ingest L (ts.map (encP F.rows)) (ps ++ junk) m = (m', .ok ()) ∧ SInv m' F ∧ Inv m' F ∧
       (∀ y, m'.hasCached y = true ↔ (m.hasCached y = true ∨ y ∈ L)) := by
-  obtain ⟨m', h1, h2, h3⟩ := MapIngest.sinv_ingest cr s L ts ps junk hnd hc
-  exact ⟨m', h1, h2, h2.inv cr, h3⟩
+  obtain ⟨m', h1, h2, h3⟩ := MapIngest.sinv_ingest nz s L ts ps junk hnd hc
+  exact ⟨m', h1, h2, h2.inv nz, h3⟩
 
 /-- **`Verify(…, remember)` of the canonical proof succeeds and preserves the invariant**;
 with `remember = true` the proven leaves join the cache -/
-theorem inv_verify (cr : CR H) {m : MapPollard H} {F : Forest H} (s : SInv m F) (L : List H) (ts : List Pos)
+theorem inv_verify (nz : NZ H) {m : MapPollard H} {F : Forest H} (s : SInv m F) (L : List H) (ts : List Pos)
     (ps junk : List H) (hnd : L.Nodup) (hc : F.canon L = some (ts, ps)) (remember : Bool) :
     ∃ m', MapPollard.verifyM L (ts.map (encP F.rows)) (ps ++ junk) remember m = (m', .ok ()) ∧ SInv m' F ∧
       Inv m' F ∧ (∀ y, m'.hasCached y = true ↔ (m.hasCached y = true ∨ (remember = true ∧ y ∈ L))) := by
-  obtain ⟨m', h1, h2, h3⟩ := MapIngest.sinv_verifyM cr s L ts ps junk hnd hc remember
-  exact ⟨m', h1, h2, h2.inv cr, h3⟩
+  obtain ⟨m', h1, h2, h3⟩ := MapIngest.sinv_verifyM nz s L ts ps junk hnd hc remember
+  exact ⟨m', h1, h2, h2.inv nz, h3⟩
 
 /-! ### Level 3: `remove` -/
 
 /-- **`remove` of cached live leaves `L` (targets of their canonical proof) preserves the
 invariant**: `m'` tracks `F.delLeaves L`, `K' = K \ L` -/
-theorem inv_remove (cr : CR H) {m : MapPollard H} {F : Forest H} (s : SInv m F) (L : List H) (ts : List Pos)
+theorem inv_remove (nz : NZ H) {m : MapPollard H} {F : Forest H} (s : SInv m F) (L : List H) (ts : List Pos)
     (ps : List H) (hnd : L.Nodup) (hc : F.canon L = some (ts, ps)) (hcached : ∀ x ∈ L, m.hasCached x = true) :
     ∃ m', MapPollard.remove (ts.map (encP F.rows)) L m = (m', .ok ()) ∧ SInv m' (F.delLeaves L) ∧
       Inv m' (F.delLeaves L) ∧ (∀ y, m'.hasCached y = true ↔ (m.hasCached y = true ∧ y ∉ L)) := by
-  obtain ⟨m', h1, h2, h3⟩ := MapRemoveAll.sinv_remove cr s L ts ps hnd hc hcached
-  exact ⟨m', h1, h2, h2.inv cr, h3⟩
+  obtain ⟨m', h1, h2, h3⟩ := MapRemoveAll.sinv_remove nz s L ts ps hnd hc hcached
+  exact ⟨m', h1, h2, h2.inv nz, h3⟩
 
 /-- `Prune` preserves the strong invariant (`Props.C09.inv_prune` strengthened) -/
-theorem inv_prune (cr : CR H) {m : MapPollard H} {F : Forest H} (s : SInv m F) (hashes : List H) :
+theorem inv_prune (nz : NZ H) {m : MapPollard H} {F : Forest H} (s : SInv m F) (hashes : List H) :
     ∃ m', MapPollard.prune hashes m = (m', .ok ()) ∧ SInv m' F ∧ Inv m' F ∧
       (∀ y, m'.hasCached y = true ↔ (m.hasCached y = true ∧ y ∉ hashes)) := by
-  obtain ⟨m', h1, h2, h3⟩ := MapPruneS.sinv_prune cr s hashes
-  exact ⟨m', h1, h2, h2.inv cr, h3⟩
+  obtain ⟨m', h1, h2, h3⟩ := MapPruneS.sinv_prune nz s hashes
+  exact ⟨m', h1, h2, h2.inv nz, h3⟩
 
 /-! ### Level 4: `Modify`, C01 and C05 for the map forest -/
 
 /-- **`Modify` (a valid block) preserves the invariant and yields the specification's roots**
 (C01 for the map forest, any allocation `TotalRows ≥ TreeRows`, growing on demand) -/
-theorem inv_modify (cr : CR H) {m : MapPollard H} {F : Forest H} (s : SInv m F) (adds : List (Leaf H))
+theorem inv_modify (nz : NZ H) {m : MapPollard H} {F : Forest H} (s : SInv m F) (adds : List (Leaf H))
     (dels : List H) (ts : List Pos) (ps : List H)
     (hcached : ∀ x ∈ dels, m.hasCached x = true) (hnd : dels.Nodup) (hc : F.canon dels = some (ts, ps))
     (hfr : ∀ a ∈ adds, a.hash ∉ F.liveLeaves ∧ a.hash ≠ zero ∧ ∀ u v : H, a.hash ≠ ph u v)
@@ -213,7 +213,7 @@ theorem inv_modify (cr : CR H) {m : MapPollard H} {F : Forest H} (s : SInv m F) 
       m'.roots = (F.modify dels (adds.map (·.hash))).roots ∧
       (∀ y, m'.hasCached y = true ↔
         ((m.hasCached y = true ∧ y ∉ dels) ∨ ∃ a ∈ adds, a.remember = true ∧ a.hash = y)) := by
-  obtain ⟨m1, h1, s1, c1⟩ := MapRemoveAll.sinv_remove cr s dels ts ps hnd hc hcached
+  obtain ⟨m1, h1, s1, c1⟩ := MapRemoveAll.sinv_remove nz s dels ts ps hnd hc hcached
   have hfr' : ∀ a ∈ adds, a.hash ∉ (F.delLeaves dels).liveLeaves ∧ a.hash ≠ zero ∧ ∀ u v : H, a.hash ≠ ph u v := by
     intro a ha
     obtain ⟨g1, g2, g3⟩ := hfr a ha
@@ -223,8 +223,8 @@ theorem inv_modify (cr : CR H) {m : MapPollard H} {F : Forest H} (s : SInv m F) 
     exact g1 (List.mem_filter.1 h).1
   have hn' : (F.delLeaves dels).numLeaves + adds.length < 2 ^ 63 := by
     rw [Spec.numLeaves_delLeaves]; exact hn
-  obtain ⟨m2, h2, s2, c2⟩ := MapAddMerge.sinv_add cr adds s1 hn' hfr' hndA
-  refine ⟨m2, ?_, s2, s2.inv cr, Props.C09.roots_eq (s2.inv cr), ?_⟩
+  obtain ⟨m2, h2, s2, c2⟩ := MapAddMerge.sinv_add nz adds s1 hn' hfr' hndA
+  refine ⟨m2, ?_, s2, s2.inv nz, Props.C09.roots_eq (s2.inv nz), ?_⟩
   · unfold MapPollard.modify
     rw [h1]
     exact h2
@@ -295,7 +295,7 @@ theorem rootFlags_noCache {m : MapPollard H} {F : Forest H}
 required ⊆ stored ⊆ allowed), the roots are the specification's (C01) and every cached set is
 provable with the canonical proof (`Props.C09.prove_canon`) — and on such a state each of these
 operations, called honestly, succeeds. -/
-theorem C09_reach_all_but_undo (cr : CR H) :
+theorem C09_reach_all_but_undo (nz : NZ H) :
     (∀ (m : MapPollard H) (F : Forest H), ReachS m F → SInv m F ∧ Inv m F ∧ m.roots = F.roots) ∧
     (∀ (m : MapPollard H) (F : Forest H), ReachS m F →
       (∀ L ts ps remember, L.Nodup → F.canon L = some (ts, ps) →
@@ -310,7 +310,7 @@ theorem C09_reach_all_but_undo (cr : CR H) :
     intro m F hr
     induction hr with
     | new =>
-      refine SInv.of_inv cr (Props.C09.inv_new false) rfl hyg_empty ?_
+      refine SInv.of_inv nz (Props.C09.inv_new false) rfl hyg_empty ?_
       intro q l _ _ hg
       simp [MapPollard.getNode, MapPollard.new, get?_nil] at hg
     | fromRoots F m hn hy hm =>
@@ -323,7 +323,7 @@ theorem C09_reach_all_but_undo (cr : CR H) :
         have : MapPollard.fromRoots F.roots (BitVec.ofNat 64 F.numLeaves) false = .ok m1 := hm1
         rw [hm] at this; exact (Except.ok.inj this).symm
       subst e0
-      refine SInv.of_inv cr inv (by rw [← e1]; exact hf) hy ?_
+      refine SInv.of_inv nz inv (by rw [← e1]; exact hf) hy ?_
       apply rootFlags_noCache
       · intro p l hg
         rw [← e1] at hg
@@ -333,36 +333,36 @@ theorem C09_reach_all_but_undo (cr : CR H) :
         rw [← e1]
         simp [MapPollard.getCached, hc, get?_nil]
     | modify adds dels ts ps _ hca hnd hc hfr hndA hn he ih =>
-      obtain ⟨m2, h2, s2, _⟩ := inv_modify cr ih adds dels ts ps hca hnd hc
+      obtain ⟨m2, h2, s2, _⟩ := inv_modify nz ih adds dels ts ps hca hnd hc
         (fun a ha => ⟨(hfr a ha).2.1, (hfr a ha).1, (hfr a ha).2.2⟩) hndA hn
       rw [he] at h2
       rw [(Prod.mk.inj h2).1]; exact s2
     | verify L ts ps remember _ hnd hc he ih =>
-      obtain ⟨m2, h2, s2, _⟩ := inv_verify cr ih L ts ps [] hnd hc remember
+      obtain ⟨m2, h2, s2, _⟩ := inv_verify nz ih L ts ps [] hnd hc remember
       rw [List.append_nil, he] at h2
       rw [(Prod.mk.inj h2).1]; exact s2
     | ingest L ts ps _ hnd hc he ih =>
-      obtain ⟨m2, h2, s2, _⟩ := inv_ingest cr ih L ts ps [] hnd hc
+      obtain ⟨m2, h2, s2, _⟩ := inv_ingest nz ih L ts ps [] hnd hc
       rw [List.append_nil, he] at h2
       rw [(Prod.mk.inj h2).1]; exact s2
     | prune L _ he ih =>
-      obtain ⟨m2, h2, s2, _⟩ := inv_prune cr ih L
+      obtain ⟨m2, h2, s2, _⟩ := inv_prune nz ih L
       rw [he] at h2
       rw [(Prod.mk.inj h2).1]; exact s2
-  refine ⟨fun m F hr => ⟨key m F hr, (key m F hr).inv cr, Props.C09.roots_eq ((key m F hr).inv cr)⟩, ?_⟩
+  refine ⟨fun m F hr => ⟨key m F hr, (key m F hr).inv nz, Props.C09.roots_eq ((key m F hr).inv nz)⟩, ?_⟩
   intro m F hr
   have s := key m F hr
   refine ⟨?_, ?_, ?_⟩
   · intro L ts ps remember hnd hc
-    obtain ⟨m1, h1, _⟩ := inv_verify cr s L ts ps [] hnd hc remember
-    obtain ⟨m2, h2, _⟩ := inv_ingest cr s L ts ps [] hnd hc
+    obtain ⟨m1, h1, _⟩ := inv_verify nz s L ts ps [] hnd hc remember
+    obtain ⟨m2, h2, _⟩ := inv_ingest nz s L ts ps [] hnd hc
     rw [List.append_nil] at h1 h2
     exact ⟨⟨m1, h1⟩, ⟨m2, h2⟩⟩
   · intro L
-    obtain ⟨m1, h1, _⟩ := inv_prune cr s L
+    obtain ⟨m1, h1, _⟩ := inv_prune nz s L
     exact ⟨m1, h1⟩
   · intro adds dels ts ps hca hnd hc hfr hndA hn
-    obtain ⟨m2, h2, _⟩ := inv_modify cr s adds dels ts ps hca hnd hc
+    obtain ⟨m2, h2, _⟩ := inv_modify nz s adds dels ts ps hca hnd hc
       (fun a ha => ⟨(hfr a ha).2.1, (hfr a ha).1, (hfr a ha).2.2⟩) hndA hn
     exact ⟨m2, h2⟩
 
@@ -370,14 +370,14 @@ theorem C09_reach_all_but_undo (cr : CR H) :
 `GetRoots` returns the specification's roots, `GetHash` answers the true hash or zero,
 `GetLeafPosition` answers exactly the cached live leaves with their true positions, and `Prove`
 of any duplicate-free list of cached leaves returns the canonical proof. -/
-theorem lookups_reach (cr : CR H) {m : MapPollard H} {F : Forest H} (hr : ReachS m F) :
+theorem lookups_reach (nz : NZ H) {m : MapPollard H} {F : Forest H} (hr : ReachS m F) :
     m.roots = F.roots ∧
     (∀ q, Valid F.rows q → m.getHash (encP F.rows q) = Hasher.zero ∨ F.nodeAt q = some (m.getHash (encP F.rows q))) ∧
     (∀ x p, m.getLeafPosition x = some p → m.hasCached x = true ∧ ∃ t, F.posOf x = some t ∧ p = encP F.rows t) ∧
     (∀ x, m.getLeafPosition x = none ↔ m.hasCached x = false) ∧
     (∀ L, (∀ x ∈ L, m.hasCached x = true) → L.Nodup →
       ∃ tgts hashes, F.canon L = some (tgts, hashes) ∧ m.prove L = .ok (tgts.map (encP F.rows), hashes)) := by
-  obtain ⟨_, inv, hroots⟩ := (C09_reach_all_but_undo cr).1 m F hr
+  obtain ⟨_, inv, hroots⟩ := (C09_reach_all_but_undo nz).1 m F hr
   exact ⟨hroots, fun q hq => Props.C09.getHash_true inv q hq,
     fun x p h => Props.C09.getLeafPosition_some inv h,
     fun x => Props.C09.getLeafPosition_none x,
@@ -391,14 +391,14 @@ strong invariant for that forest — e.g. the state after the `Modify`, possibly
 `Verify`/`Ingest`/`Prune`), then `Undo(len adds, canonical proof of dels in F, dels, roots of F)`
 succeeds, the result tracks `F` again (strong invariant, `Inv`, the roots are `F.roots`), and the
 cache is `(K \ adds) ∪ dels`. -/
-theorem inv_undo (cr : CR H) {m : MapPollard H} {F : Forest H} {dels adds : List H} {ts : List Pos} {ps : List H}
+theorem inv_undo (nz : NZ H) {m : MapPollard H} {F : Forest H} {dels adds : List H} {ts : List Pos} {ps : List H}
     (s : SInv m (F.modify dels adds)) (hyF : Hyg F) (hnd : dels.Nodup) (hc : F.canon dels = some (ts, ps))
     (nonZero : H) (hnz : nonZero ≠ (zero : H)) :
     ∃ m', MapPollard.undo nonZero (BitVec.ofNat 64 adds.length) (ts.map (encP F.rows)) ps dels F.roots m = (m', .ok ()) ∧
       SInv m' F ∧ Inv m' F ∧ m'.roots = F.roots ∧
       (∀ y, m'.hasCached y = true ↔ ((m.hasCached y = true ∧ y ∉ adds) ∨ y ∈ dels)) := by
-  obtain ⟨m', h1, h2, h3⟩ := MapUndoAll.sinv_undo cr s hyF hnd hc nonZero hnz
-  exact ⟨m', h1, h2, h2.inv cr, Props.C09.roots_eq (h2.inv cr), h3⟩
+  obtain ⟨m', h1, h2, h3⟩ := MapUndoAll.sinv_undo nz s hyF hnd hc nonZero hnz
+  exact ⟨m', h1, h2, h2.inv nz, Props.C09.roots_eq (h2.inv nz), h3⟩
 
 /-! ### all operations, `Undo` included -/
 
@@ -438,38 +438,38 @@ inductive ReachU (nonZero : H) : MapPollard H → Forest H → List (Props.C09.B
 
 /-- the induction: every `ReachU` state satisfies the strong invariant, and its undo stack fits
 its forest (so that `inv_undo` applies to the newest block) -/
-theorem ReachU.stack (cr : CR H) {nonZero : H} (hnz : nonZero ≠ (zero : H)) :
+theorem ReachU.stack (nz : NZ H) {nonZero : H} (hnz : nonZero ≠ (zero : H)) :
     ∀ {m : MapPollard H} {F : Forest H} {st : List (Props.C09.BlockData H)}, ReachU nonZero m F st → SInv m F ∧ StackOK F st := by
   intro m F st hr
   induction hr with
   | new =>
-    refine ⟨SInv.of_inv cr (Props.C09.inv_new false) rfl hyg_empty ?_, trivial⟩
+    refine ⟨SInv.of_inv nz (Props.C09.inv_new false) rfl hyg_empty ?_, trivial⟩
     intro q l _ _ hg
     simp [MapPollard.getNode, MapPollard.new, get?_nil] at hg
   | fromRoots F m hn hy hm =>
-    exact ⟨((C09_reach_all_but_undo cr).1 m F (ReachS.fromRoots F m hn hy hm)).1, trivial⟩
+    exact ⟨((C09_reach_all_but_undo nz).1 m F (ReachS.fromRoots F m hn hy hm)).1, trivial⟩
   | modify adds dels ts ps _ hca hnd hc hfr hndA hn he ih =>
-    obtain ⟨m2, h2, s2, _⟩ := inv_modify cr ih.1 adds dels ts ps hca hnd hc
+    obtain ⟨m2, h2, s2, _⟩ := inv_modify nz ih.1 adds dels ts ps hca hnd hc
       (fun a ha => ⟨(hfr a ha).2.1, (hfr a ha).1, (hfr a ha).2.2⟩) hndA hn
     rw [he] at h2
     rw [(Prod.mk.inj h2).1]
     exact ⟨s2, ⟨adds.map (·.hash), by simp, rfl⟩, ih.1.hyg, hnd, hc, ih.2⟩
   | verify L ts ps remember _ hnd hc he ih =>
-    obtain ⟨m2, h2, s2, _⟩ := inv_verify cr ih.1 L ts ps [] hnd hc remember
+    obtain ⟨m2, h2, s2, _⟩ := inv_verify nz ih.1 L ts ps [] hnd hc remember
     rw [List.append_nil, he] at h2
     rw [(Prod.mk.inj h2).1]; exact ⟨s2, ih.2⟩
   | ingest L ts ps _ hnd hc he ih =>
-    obtain ⟨m2, h2, s2, _⟩ := inv_ingest cr ih.1 L ts ps [] hnd hc
+    obtain ⟨m2, h2, s2, _⟩ := inv_ingest nz ih.1 L ts ps [] hnd hc
     rw [List.append_nil, he] at h2
     rw [(Prod.mk.inj h2).1]; exact ⟨s2, ih.2⟩
   | prune L _ he ih =>
-    obtain ⟨m2, h2, s2, _⟩ := inv_prune cr ih.1 L
+    obtain ⟨m2, h2, s2, _⟩ := inv_prune nz ih.1 L
     rw [he] at h2
     rw [(Prod.mk.inj h2).1]; exact ⟨s2, ih.2⟩
   | undo b _ he ih =>
     obtain ⟨s, ⟨adds, hlen, hF⟩, hy, hnd, hc, hst⟩ := ih
     rw [hF] at s
-    obtain ⟨m2, h2, s2, _⟩ := inv_undo cr s hy hnd hc nonZero hnz
+    obtain ⟨m2, h2, s2, _⟩ := inv_undo nz s hy hnd hc nonZero hnz
     rw [hlen, he] at h2
     rw [(Prod.mk.inj h2).1]; exact ⟨s2, hst⟩
 
@@ -479,7 +479,7 @@ starts from is hygienic, and the additions of a `Modify` are fresh (as `Reach.mo
 Every reachable state satisfies the strong invariant (hence `m.full = false`, `Inv`, and its roots
 are the specification's), and on a reachable state every honest call — `Verify`, `Ingest`, `Prune`,
 `Modify`, and `Undo` of the newest block — succeeds. -/
-theorem C09_reach (cr : CR H) (nonZero : H) (hnz : nonZero ≠ (zero : H)) :
+theorem C09_reach (nz : NZ H) (nonZero : H) (hnz : nonZero ≠ (zero : H)) :
     (∀ (m : MapPollard H) (F : Forest H) (st : List (Props.C09.BlockData H)), ReachU nonZero m F st →
       m.full = false ∧ SInv m F ∧ Inv m F ∧ m.roots = F.roots) ∧
     (∀ (m : MapPollard H) (F : Forest H) (st : List (Props.C09.BlockData H)), ReachU nonZero m F st →
@@ -495,32 +495,32 @@ theorem C09_reach (cr : CR H) (nonZero : H) (hnz : nonZero ≠ (zero : H)) :
         MapPollard.undo nonZero (BitVec.ofNat 64 b.numAdds) (b.targets.map (encP b.prev.rows)) b.proof b.dels
           b.prev.roots m = (m', .ok ()))) := by
   refine ⟨fun m F st hr => ?_, fun m F st hr => ?_⟩
-  · have s := (ReachU.stack cr hnz hr).1
-    exact ⟨s.full, s, s.inv cr, Props.C09.roots_eq (s.inv cr)⟩
-  · obtain ⟨s, hst⟩ := ReachU.stack cr hnz hr
+  · have s := (ReachU.stack nz hnz hr).1
+    exact ⟨s.full, s, s.inv nz, Props.C09.roots_eq (s.inv nz)⟩
+  · obtain ⟨s, hst⟩ := ReachU.stack nz hnz hr
     refine ⟨?_, ?_, ?_, ?_⟩
     · intro L ts ps remember hnd hc
-      obtain ⟨m1, h1, _⟩ := inv_verify cr s L ts ps [] hnd hc remember
-      obtain ⟨m2, h2, _⟩ := inv_ingest cr s L ts ps [] hnd hc
+      obtain ⟨m1, h1, _⟩ := inv_verify nz s L ts ps [] hnd hc remember
+      obtain ⟨m2, h2, _⟩ := inv_ingest nz s L ts ps [] hnd hc
       rw [List.append_nil] at h1 h2
       exact ⟨⟨m1, h1⟩, ⟨m2, h2⟩⟩
     · intro L
-      obtain ⟨m1, h1, _⟩ := inv_prune cr s L
+      obtain ⟨m1, h1, _⟩ := inv_prune nz s L
       exact ⟨m1, h1⟩
     · intro adds dels ts ps hca hnd hc hfr hndA hn
-      obtain ⟨m2, h2, _⟩ := inv_modify cr s adds dels ts ps hca hnd hc
+      obtain ⟨m2, h2, _⟩ := inv_modify nz s adds dels ts ps hca hnd hc
         (fun a ha => ⟨(hfr a ha).2.1, (hfr a ha).1, (hfr a ha).2.2⟩) hndA hn
       exact ⟨m2, h2⟩
     · intro b st' e
       subst e
       obtain ⟨⟨adds, hlen, hF⟩, hy, hnd, hc, _⟩ := hst
       rw [hF] at s
-      obtain ⟨m2, h2, _⟩ := inv_undo cr s hy hnd hc nonZero hnz
+      obtain ⟨m2, h2, _⟩ := inv_undo nz s hy hnd hc nonZero hnz
       rw [hlen] at h2
       exact ⟨m2, h2⟩
 
 /-- the lookups (C10 / C01 / C02 for the map forest) in every reachable state, `Undo` included -/
-theorem lookups_reachU (cr : CR H) {nonZero : H} (hnz : nonZero ≠ (zero : H)) {m : MapPollard H} {F : Forest H}
+theorem lookups_reachU (nz : NZ H) {nonZero : H} (hnz : nonZero ≠ (zero : H)) {m : MapPollard H} {F : Forest H}
     {st : List (Props.C09.BlockData H)} (hr : ReachU nonZero m F st) :
     m.roots = F.roots ∧
     (∀ q, Valid F.rows q → m.getHash (encP F.rows q) = Hasher.zero ∨ F.nodeAt q = some (m.getHash (encP F.rows q))) ∧
@@ -528,7 +528,7 @@ theorem lookups_reachU (cr : CR H) {nonZero : H} (hnz : nonZero ≠ (zero : H)) 
     (∀ x, m.getLeafPosition x = none ↔ m.hasCached x = false) ∧
     (∀ L, (∀ x ∈ L, m.hasCached x = true) → L.Nodup →
       ∃ tgts hashes, F.canon L = some (tgts, hashes) ∧ m.prove L = .ok (tgts.map (encP F.rows), hashes)) := by
-  obtain ⟨_, _, inv, hroots⟩ := (C09_reach cr nonZero hnz).1 m F st hr
+  obtain ⟨_, _, inv, hroots⟩ := (C09_reach nz nonZero hnz).1 m F st hr
   exact ⟨hroots, fun q hq => Props.C09.getHash_true inv q hq,
     fun x p h => Props.C09.getLeafPosition_some inv h,
     fun x => Props.C09.getLeafPosition_none x,
@@ -554,7 +554,7 @@ strong invariant `SInv` contains `m.full = false`, as does the conclusion of
 skipped pruning change every step lemma.  The statement is kept visible; it holds on the concrete
 run checked below and in the differential tests against the Go code. -/
 def C01_full_statement (H : Type) [DecidableEq H] [Hasher H] : Prop :=
-  CR H → ∀ (m : MapPollard H) (F : Forest H), ReachFull m F → m.roots = F.roots
+  NZ H → ∀ (m : MapPollard H) (F : Forest H), ReachFull m F → m.roots = F.roots
 
 /-! ### non-vacuity for levels 2–4 -/
 
@@ -569,13 +569,13 @@ theorem canon20 : F5.canon [T.leaf 2, T.leaf 0] = some ([(0, 2), (0, 0)], [T.lea
 /-- `inv_verify`: the uncached leaves 1 and 3 are verified and remembered (one surplus hash) -/
 example : ∃ m', MapPollard.verifyM [T.leaf 1, T.leaf 3] ([(0, 1), (0, 3)].map (encP F5.rows))
     ([T.leaf 0, T.leaf 2] ++ [T.leaf 9]) true m5 = (m', .ok ()) ∧ Inv m' F5 ∧ m'.hasCached (T.leaf 3) = true := by
-  obtain ⟨m', h1, _, h3, h4⟩ := inv_verify crT m5_sinv _ _ _ [T.leaf 9] (by decide) canon13 true
+  obtain ⟨m', h1, _, h3, h4⟩ := inv_verify crT.toNZ m5_sinv _ _ _ [T.leaf 9] (by decide) canon13 true
   exact ⟨m', h1, h3, (h4 _).2 (Or.inr ⟨rfl, by decide⟩)⟩
 
 /-- `inv_remove`: the cached leaves 2 and 0 are deleted (request order 2, 0) -/
 example : ∃ m', MapPollard.remove ([(0, 2), (0, 0)].map (encP F5.rows)) [T.leaf 2, T.leaf 0] m5 = (m', .ok ()) ∧
     Inv m' (F5.delLeaves [T.leaf 2, T.leaf 0]) ∧ m'.hasCached (T.leaf 4) = true ∧ m'.hasCached (T.leaf 0) = false := by
-  obtain ⟨m', h1, _, h3, h4⟩ := inv_remove crT m5_sinv _ _ _ (by decide) canon20 (by decide +kernel)
+  obtain ⟨m', h1, _, h3, h4⟩ := inv_remove crT.toNZ m5_sinv _ _ _ (by decide) canon20 (by decide +kernel)
   refine ⟨m', h1, h3, (h4 _).2 ⟨by decide +kernel, by decide⟩, ?_⟩
   cases hh : m'.hasCached (T.leaf 0) with
   | false => rfl
@@ -586,7 +586,7 @@ all the way up); the roots are the specification's -/
 example : ∃ m', MapPollard.modify [⟨T.leaf 5, true⟩, ⟨T.leaf 6, false⟩, ⟨T.leaf 7, true⟩] [T.leaf 2, T.leaf 0]
       ([(0, 2), (0, 0)].map (encP F5.rows)) m5 = (m', .ok ()) ∧
     m'.roots = (F5.modify [T.leaf 2, T.leaf 0] [T.leaf 5, T.leaf 6, T.leaf 7]).roots := by
-  obtain ⟨m', h1, _, _, h4, _⟩ := inv_modify crT m5_sinv
+  obtain ⟨m', h1, _, _, h4, _⟩ := inv_modify crT.toNZ m5_sinv
     [⟨T.leaf 5, true⟩, ⟨T.leaf 6, false⟩, ⟨T.leaf 7, true⟩] [T.leaf 2, T.leaf 0] _ _
     (by decide +kernel) (by decide) canon20
     (by
@@ -603,7 +603,7 @@ example : MapPollard.modify [] [T.leaf 2, T.leaf 0] [0#64, 2#64] m5 =
 
 /-- `ReachS` is inhabited beyond the initial states -/
 example : ∃ m, ReachS m (Forest.empty.modify ([] : List T) [T.leaf 0, T.leaf 1, T.leaf 2]) := by
-  obtain ⟨_, hprog⟩ := C09_reach_all_but_undo (H := T) crT
+  obtain ⟨_, hprog⟩ := C09_reach_all_but_undo (H := T) crT.toNZ
   obtain ⟨_, _, hm⟩ := hprog _ _ ReachS.new
   have hc : (Forest.empty : Forest T).canon [] = some ([], []) := by decide +kernel
   obtain ⟨m', h⟩ := hm [⟨T.leaf 0, true⟩, ⟨T.leaf 1, false⟩, ⟨T.leaf 2, true⟩] [] [] [] (by simp) (by simp) hc
@@ -629,7 +629,7 @@ example : ∃ m' m'', MapPollard.modify [⟨T.leaf 5, true⟩, ⟨T.leaf 6, fals
       F5.roots m' = (m'', .ok ()) ∧
     Inv m'' F5 ∧ m''.roots = F5.roots ∧ m''.hasCached (T.leaf 2) = true ∧ m''.hasCached (T.leaf 0) = true ∧
     m''.hasCached (T.leaf 5) = false := by
-  obtain ⟨m', h1, s1, _, _, c1⟩ := inv_modify crT m5_sinv
+  obtain ⟨m', h1, s1, _, _, c1⟩ := inv_modify crT.toNZ m5_sinv
     [⟨T.leaf 5, true⟩, ⟨T.leaf 6, false⟩, ⟨T.leaf 7, true⟩] [T.leaf 2, T.leaf 0] _ _
     (by decide +kernel) (by decide) canon20
     (by
@@ -637,7 +637,7 @@ example : ∃ m' m'', MapPollard.modify [⟨T.leaf 5, true⟩, ⟨T.leaf 6, fals
       simp only [List.mem_cons, List.mem_nil_iff, or_false] at ha
       rcases ha with rfl | rfl | rfl <;> exact ⟨by decide, leafT_nz _, leafT_nph _⟩)
     (by decide) (by decide)
-  obtain ⟨m'', h2, _, i2, r2, c2⟩ := inv_undo crT s1 m5_sinv.hyg (by decide) canon20 (T.leaf 9) (leafT_nz 9)
+  obtain ⟨m'', h2, _, i2, r2, c2⟩ := inv_undo crT.toNZ s1 m5_sinv.hyg (by decide) canon20 (T.leaf 9) (leafT_nz 9)
   refine ⟨m', m'', h1, h2, i2, r2, (c2 _).2 (Or.inr (by decide)), (c2 _).2 (Or.inr (by decide)), ?_⟩
   cases hh : m''.hasCached (T.leaf 5) with
   | false => rfl
@@ -648,7 +648,7 @@ example : ∃ m' m'', MapPollard.modify [⟨T.leaf 5, true⟩, ⟨T.leaf 6, fals
 
 /-- `ReachU` with an `Undo`: a block is applied to the empty forest and undone again -/
 example : ∃ m, ReachU (T.leaf 9) m (Forest.empty : Forest T) [] := by
-  obtain ⟨_, hprog⟩ := C09_reach (H := T) crT (T.leaf 9) (leafT_nz 9)
+  obtain ⟨_, hprog⟩ := C09_reach (H := T) crT.toNZ (T.leaf 9) (leafT_nz 9)
   obtain ⟨_, _, hm, _⟩ := hprog _ _ _ ReachU.new
   have hc : (Forest.empty : Forest T).canon [] = some ([], []) := by decide +kernel
   have hfr : ∀ a ∈ [(⟨T.leaf 0, true⟩ : Leaf T), ⟨T.leaf 1, false⟩, ⟨T.leaf 2, true⟩],
